@@ -51,7 +51,11 @@ def worker(args, scratch):
     env = None
     if args.get("delays"):
         env = {"GPA_VERIF_DELAY": "get_key:300:2000", "GPA_VERIF_DELAY_SEED": str(args["shard"] + 1)}
-    w = wproxy.World(scratch, runtime="multi:8", env=env)
+    def handler(name, req):
+        if (req.header("x-vf-id") or b"").endswith(b"-hca"):
+            return {"status": 200, "body": b"bye", "close": True}      # answers, then closes its side without saying so
+        return wproxy.World.default_handler(name, req)
+    w = wproxy.World(scratch, runtime="multi:8", env=env, handler=handler)
     try:
         idents = []
         for i in range(args["identities"]):
@@ -116,6 +120,37 @@ def worker(args, scratch):
             bump("port_reuse_fresh_record" if fresh else "port_reuse_no_record")
             with lock:
                 res["nontrivial"].append(common.sha(["reuse", fresh, a.user, b.user, pair % 7]))
+        # ---- history 9: the recorded destination closes its side of the connection; the client goes on with a request in absolute form that
+        # names ANOTHER host: whatever the proxy does (gateway error, re-connect), nothing of this connection goes anywhere but to the
+        # destination the kernel recorded for it
+        for k in range(args.get("absolute_form_histories", 6)):
+            a = r.choice([i for i in idents if i.user == "root"] or idents)
+            conn = w.open("imds", a)
+            base = "c07-%d-abs%d" % (args["shard"], k)
+            oip, oport = wproxy.DESTS["other"]
+            try:
+                conn.send(rawhttp.build_request("GET", "/u/%s/first" % a.user, [("x-vf-id", base + "-hca")]))
+                conn.read_response()
+                time.sleep(0.05 + 0.1 * r.random())
+                raw = rawhttp.build_request("GET", "/u/%s/second" % a.user, [("x-vf-id", base + "-b")], host="%s:%d" % (oip, oport))
+                raw = raw.replace(b"GET /u/", b"GET http://%s:%d/u/" % (oip.encode(), oport), 1)
+                conn.send(raw)
+                try:
+                    conn.read_response()
+                except Exception:  # noqa
+                    pass
+            except Exception:  # noqa
+                pass
+            conn.close()
+            with lock:
+                res["evaluations"] += 1
+            for u in w.upstream(base + "-b"):
+                if u.host != "imds":
+                    viol("request-sent-to-a-destination-other-than-the-recorded-one", {"recorded": "imds", "sent_to": u.host, "request_line": u.start.decode("latin-1"),
+                                                                                        "history": "host closed its connection; next request in absolute form naming another host"})
+            bump("absolute_form_after_host_close_histories")
+            with lock:
+                res["nontrivial"].append("abs-form-%d" % (k % 6))
         # ---- history 8: a process that becomes another program (execve, same pid) between two connections: the second connection is
         # judged as the program that made it, not as the program an earlier connection of that pid belonged to
         for k in range(args.get("exec_histories", 4)):
